@@ -6,6 +6,7 @@ import (
 	"fmt"
 	"io"
 	"math/rand"
+	"runtime"
 	"sort"
 	"sync"
 	"sync/atomic"
@@ -18,13 +19,14 @@ import (
 
 // DirPlan is what happens on one direction of one stream.
 type DirPlan struct {
-	Writes          []int  `json:"writes"`             // Write sizes in order
-	WriteDeadlineMs int    `json:"wdl,omitempty"`      // 0 = none
-	End             string `json:"end"`                // cw | close | none
-	EndAfterMs      int    `json:"endafter,omitempty"` // > 0: End runs concurrently with the writes, after this delay
-	Reads           []int  `json:"reads"`              // buffer sizes, cycled
-	ReadMode        string `json:"rmode"`              // drain | some | stall
-	ReadCount       int    `json:"rcount,omitempty"`   // some: number of reads
+	Writes          []int  `json:"writes"`               // Write sizes in order
+	WriteDeadlineMs int    `json:"wdl,omitempty"`        // 0 = none
+	End             string `json:"end"`                  // cw | close | none
+	EndAfterMs      int    `json:"endafter,omitempty"`   // > 0: End runs concurrently with the writes, after this delay
+	EndAfterUsMax   int    `json:"endafterus,omitempty"` // > 0: End runs concurrently, after a seed-derived delay below this many microseconds
+	Reads           []int  `json:"reads"`                // buffer sizes, cycled
+	ReadMode        string `json:"rmode"`                // drain | some | stall
+	ReadCount       int    `json:"rcount,omitempty"`     // some: number of reads
 	ReadDeadlineMs  int    `json:"rdl,omitempty"`
 	StallMs         int    `json:"stall,omitempty"`  // sleep before the first read
 	ReaderClose     bool   `json:"rclose,omitempty"` // the reader calls Close() when it stops
@@ -257,6 +259,20 @@ func runWorkload(wl Workload) *traceResult {
 					time.Sleep(time.Duration(d.EndAfterMs) * time.Millisecond)
 					endAction()
 				}()
+			} else if d.EndAfterUsMax > 0 {
+				// a second goroutine ends the direction while the Write below is in
+				// progress; the delay is derived from the seed so that repeated
+				// rounds sweep the interleavings
+				x := uint64(wl.Seed)*0x9E3779B97F4A7C15 + uint64(k)*0xBF58476D1CE4E5B9 + uint64(wd)
+				x ^= x >> 31
+				delay := time.Duration(x%uint64(d.EndAfterUsMax)) * time.Microsecond
+				go func() {
+					t0 := time.Now()
+					for time.Since(t0) < delay {
+						runtime.Gosched()
+					}
+					endAction()
+				}()
 			}
 			off := 0
 			for _, sz := range d.Writes {
@@ -274,7 +290,7 @@ func runWorkload(wl Workload) *traceResult {
 				}
 			}
 			r.wlen = off
-			if d.EndAfterMs == 0 {
+			if d.EndAfterMs == 0 && d.EndAfterUsMax == 0 {
 				endAction()
 			}
 			<-endDone
@@ -683,6 +699,8 @@ func genWorkload(r *rand.Rand, thorough, zeroReads, concurrent bool) Workload {
 			}
 			if total > 0 && dp.End != "none" && r.Intn(5) == 0 {
 				dp.EndAfterMs = 1 + r.Intn(8)
+			} else if total > 0 && dp.End != "none" && r.Intn(4) == 0 {
+				dp.EndAfterUsMax = 50 + r.Intn(2000)
 			}
 			// nobody may block for ever: a writer without a deadline needs a
 			// reader that drains to the end or closes the stream when it stops;
